@@ -264,6 +264,7 @@ func (c *Ctx) checkInvariants(fr *Frame, li *loopInfo, st *State, reach string, 
 	if kind == "back" && len(ls.Steps) > 0 && li.headSt != nil {
 		sev := c.invEval(fr, st, header, phis)
 		sev.prevSt = li.headSt
+		sev.entrySt, sev.entryPhis = li.entrySt, li.entryPhis
 		for i, sc := range ls.Steps {
 			tv, err := sev.eval(sc.Expr)
 			if err != nil {
@@ -275,6 +276,7 @@ func (c *Ctx) checkInvariants(fr *Frame, li *loopInfo, st *State, reach string, 
 		}
 	}
 	ev := c.invEval(fr, st, header, phis)
+	ev.entrySt, ev.entryPhis = li.entrySt, li.entryPhis
 	for i, inv := range ls.Invariants {
 		tv, err := ev.eval(inv.Expr)
 		if err != nil {
@@ -295,6 +297,7 @@ func (c *Ctx) assumeInvariants(fr *Frame, li *loopInfo, st *State, reach string)
 		return
 	}
 	ev := c.invEval(fr, st, li.header, nil)
+	ev.entrySt, ev.entryPhis = li.entrySt, li.entryPhis
 	for _, inv := range ls.Invariants {
 		tv, err := ev.eval(inv.Expr)
 		if err != nil {
@@ -555,6 +558,9 @@ func (c *Ctx) run() {
 			c.trackVal(fmt.Sprintf("out.%d", i), v, fn.Signature.Results().At(i).Type(), r.st)
 		}
 		for ei, en := range con.Ensures {
+			if en.Only != "" && currentProp != "" && en.Only != currentProp {
+				continue
+			}
 			tv, err := post.eval(en.Expr)
 			if err != nil {
 				c.unsupportedf("ensures %q: %v", en.Text, err)
@@ -645,9 +651,7 @@ func (c *Ctx) applyModsImpl(st *State, ms *ModSet) {
 			before := st.heap[n]
 			c.havocArr(st, n)
 			after := st.heap[n]
-			r := c.fresh("r")
-			c.lines = append(c.lines, fmt.Sprintf("(assert (forall ((%s Int)) (! (=> (< %s %s) (= (select %s %s) (select %s %s))) :pattern ((select %s %s)))))",
-				r, r, old, after, r, before, r, after, r))
+			c.frameUnchanged(n, before, after, old)
 		}
 		return
 	}
@@ -660,9 +664,7 @@ func (c *Ctx) applyModsImpl(st *State, ms *ModSet) {
 			before := st.heap[n]
 			c.havocArr(st, n)
 			after := st.heap[n]
-			r := c.fresh("r")
-			c.lines = append(c.lines, fmt.Sprintf("(assert (forall ((%s Int)) (! (=> (< %s %s) (= (select %s %s) (select %s %s))) :pattern ((select %s %s)))))",
-				r, r, old, after, r, before, r, after, r))
+			c.frameUnchanged(n, before, after, old)
 		}
 		return
 	}
@@ -677,10 +679,76 @@ func (c *Ctx) applyModsImpl(st *State, ms *ModSet) {
 		before := c.arr(st, n, ms.Fresh[n])
 		c.havocArr(st, n)
 		after := st.heap[n]
-		r := c.fresh("r")
-		c.lines = append(c.lines, fmt.Sprintf("(assert (forall ((%s Int)) (! (=> (< %s %s) (= (select %s %s) (select %s %s))) :pattern ((select %s %s)))))",
-			r, r, old, after, r, before, r, after, r))
+		c.frameUnchanged(n, before, after, old)
 	}
+}
+
+// frameUnchanged: array n keeps its entries at every reference that existed before (r < old). Besides the
+// quantified fact, ground instances are emitted for the references the current activation can name (its
+// parameters, locals, loop variables), so that most frame reasoning is decided without quantifier instantiation.
+func (c *Ctx) frameUnchanged(n, before, after, old string) {
+	r := c.fresh("r")
+	c.lines = append(c.lines, fmt.Sprintf("(assert (forall ((%s Int)) (! (=> (< %s %s) (= (select %s %s) (select %s %s))) :pattern ((select %s %s)))))",
+		r, r, old, after, r, before, r, after, r))
+	for _, ref := range c.scopeRefs(n) {
+		c.lines = append(c.lines, fmt.Sprintf("(assert (=> (< %s %s) (= (select %s %s) (select %s %s))))", ref, old, after, ref, before, ref))
+	}
+}
+
+// scopeRefs: terms of the references in the current frame whose pointee lives in heap array n.
+func (c *Ctx) scopeRefs(n string) []string {
+	fr := c.curFr
+	if fr == nil || c.specDepth > 0 {
+		return nil
+	}
+	if c.scopeCacheFr != fr || c.scopeCacheN != len(fr.vals) {
+		c.scopeCacheFr, c.scopeCacheN = fr, len(fr.vals)
+		c.scopeCache = map[string][]string{}
+		seen := map[string]bool{}
+		add := func(arr, ref string) {
+			k := arr + "|" + ref
+			if !seen[k] {
+				seen[k] = true
+				c.scopeCache[arr] = append(c.scopeCache[arr], ref)
+			}
+		}
+		visit := func(v ssa.Value) {
+			val, ok := fr.vals[v]
+			if !ok || val.T == "" || val.L != nil || len(val.Tup) > 0 {
+				return
+			}
+			switch t := v.Type().Underlying().(type) {
+			case *types.Slice:
+				add(c.sorts.ElemArrayT(t.Elem()), "(s_arr "+val.T+")")
+			case *types.Map:
+				add(c.sorts.MapHasT(t), val.T)
+				add(c.sorts.MapValT(t), val.T)
+				add(c.sorts.MapLenT(t), val.T)
+			case *types.Pointer:
+				if stt, ok := t.Elem().Underlying().(*types.Struct); ok {
+					for i := 0; i < stt.NumFields(); i++ {
+						an, _ := c.sorts.FieldArray(t.Elem(), i)
+						if !c.isFinal(an) {
+							add("H_"+strings.TrimPrefix(an, "H_"), val.T)
+						}
+					}
+				} else {
+					add(c.sorts.CellArrayT(t.Elem()), val.T)
+				}
+			}
+		}
+		for _, p := range fr.fn.Params {
+			visit(p)
+		}
+		for _, b := range fr.fn.Blocks {
+			for _, ins := range b.Instrs {
+				if v, ok := ins.(ssa.Value); ok {
+					visit(v)
+				}
+			}
+		}
+	}
+	return c.scopeCache[n]
 }
 
 func describeMods(ms *ModSet) string {
